@@ -12,6 +12,9 @@ for ln in (VERIF / "properties.jsonl").read_text().splitlines():
 NOTE_AUTOJAC = ("Trusted: Lean kernel; contract of torch.autograd.grad (DESIGN §3); the harness; the hand-written model "
                 "lean/TjdModel/Autojac/*.lean, tied to /repo on every run by exact differential execution on P-int "
                 "programs. Floating point is not modelled (values are integers, hence exact in float32/64).")
+NOTE_AGG = ("Trusted: Lean kernel; numerical kernels (SVD, quadprog, pinv, eigh, CLARABEL/ECOS, sort/topk/cdist, RNG) by "
+            "contract, their USE is modelled; the harness and its tolerances (derived from conditioning, DESIGN §4.5); floats "
+            "are not modelled: consequences for floats are checked, not proved.")
 CLAIMED = {
     "C01": ("Lean 4 theorems (backward_eq_spec, backward_order_indep, ...) over all engines/aggregators/orders/chunk "
             "sizes + exact correspondence of the executable model with torchjd.backward on random integer programs",
@@ -73,6 +76,58 @@ CLAIMED = {
             "For every rejection the model is proved to leave all .grad unchanged; every rejection kind is injected at "
             "every argument position on random programs and the real .grad snapshot is compared.",
             NOTE_AUTOJAC, "DESIGN.md §5 C20"),
+
+    "C03": ("Lean 4 theorems over any ordered field (kkt_minimizer, qp_min_unique, dualproj_is_projection, "
+            "upgrad_is_sum_of_projections, no_conflict_identity, ...) + exact-rational correspondence on rational-SVD matrices",
+            "The returned weights are proved to be THE minimiser of the regularised QP (KKT certificate, uniqueness by "
+            "positive definiteness), UPGrad the sum of the m projections; the model is executed on matrices whose largest "
+            "singular value is exactly rational and compared with the real aggregators; KKT is also evaluated exactly on "
+            "the implementation's own weights.", NOTE_AGG, "DESIGN.md §5 C03, §10"),
+    "C04": ("Lean 4 theorems (dualproj/upgrad_nonconflict, minnorm_certificate, mgda_nonconflict, mgda_fw_rate) + the Lean "
+            "predicate NonConflictUpTo evaluated exactly on the implementation's output",
+            "The stated allowances are proved for UPGrad/DualProj/MGDA including the Frank-Wolfe rate 8s²/(K+2); the "
+            "predicate is evaluated with exact rationals on adversarial and exhaustive {-1,0,1} matrices. CAGrad: predicate "
+            "only (solver optimality is a kernel).", NOTE_AGG, "DESIGN.md §5 C04, §10.3"),
+    "C08": ("Lean 4 theorems (gramian_aggregator_equivariant and instances, config_in_rowspan, column permutation / "
+            "zero-column lemmas) + metamorphic correspondence with rational orthogonal Q",
+            "Every aggregator of the form J^T W(JJ^T) is proved equivariant under orthogonal changes of coordinates, "
+            "column-wise ones under column permutations and zero columns; the real aggregators are checked on J, JQ, "
+            "permuted and padded matrices.", NOTE_AGG, "DESIGN.md §5 C08, §10"),
+    "C09": ("Lean 4 theorems (fixed_weights_linear, pcgrad_linear_under_scaling via the vector-space refinement, "
+            "config_linear_under_scaling) + scaling-triple correspondence; UPGrad defect measured on a reg_eps ladder",
+            "Exact linearity under positive row scaling is proved for the aggregators the property lists except UPGrad, "
+            "whose quantitative defect bound is measured, not proved.", NOTE_AGG, "DESIGN.md §5 C09, §10.3"),
+    "C10": ("Lean 4 theorems (combine_row_perm, isQPMin_perm + uniqueness => dualproj/upgrad_row_perm, "
+            "trimmedMean/graddrop_row_perm) + exhaustive m! permutation correspondence",
+            "Row-permutation invariance is proved for linear, QP-based, TrimmedMean and GradDrop models; MGDA, Krum, CAGrad, "
+            "IMTL-G, ConFIG, Aligned-MTL are covered by the exhaustive permutation check (ties excluded).",
+            NOTE_AGG, "DESIGN.md §5 C10, §10.3"),
+    "C11": ("Lean 4 theorems (validation decision table rejects_*_iff, scale-invariance of every weighting model, pre-fix "
+            "counter-witness for IMTL-G) + validation-table correspondence and observed totality/purity/homogeneity",
+            "The validation table and positive homogeneity of the models are proved; finiteness over 27 orders of "
+            "magnitude, dtype preservation, history independence and seeded reproducibility are OBSERVED on the "
+            "implementation (runtime facts).", NOTE_AGG, "DESIGN.md §5 C11, §10.3"),
+    "C16": ("Lean 4 theorems (trimmedMeanCol_robust by a counting argument on the sorted column, krum_selects_lowest_scores, "
+            "krum_neighbourhood) + corrupted-row correspondence",
+            "Robustness of the trimmed mean to any b corrupted rows and Krum's selection rule are proved for all inputs; "
+            "the real aggregators are run on honest clusters with arbitrary corrupted rows and compared with the exact model.",
+            NOTE_AGG, "DESIGN.md §5 C16"),
+    "C17": ("Lean 4 theorems (imtlg_equal_projections, config_cosines, config_length, aligned_balanced) + exact-rational "
+            "correspondence on matrices with rational row norms / spectrum",
+            "The defining equal-projection / cosine / balance equations are proved from certificate-checked kernels; the "
+            "real aggregators are compared with the exact model and the defining equations are evaluated on their output.",
+            NOTE_AGG, "DESIGN.md §5 C17"),
+    "C18": ("Lean 4 theorems (fwStep_simplex/monotone, mgda_two_rows_exact, pcgrad_refines, graddrop_coordinate, "
+            "cagrad_distance, softmax_positive_sum_one) + candidate-set correspondence over all random draws",
+            "The published definitions are proved for the models for every draw; the implementation's results under many "
+            "seeds must lie in the candidate sets the model enumerates over ALL projection orders / sign choices.",
+            NOTE_AGG, "DESIGN.md §5 C18"),
+    "C19": ("Lean 4 theorems on the NashMTL state machine (reset_eq_fresh, schedule, reuse_unchanged, subsampled_equiv, "
+            "max_norm_bound) for every solver + black-box history correspondence",
+            "For an arbitrary solver function, reset/schedule/reuse/sub-sampling/norm-bound are proved over all histories; "
+            "real instances are driven through exhaustive short histories and compared with fresh instances, a k=1 twin and "
+            "the schedule model.", NOTE_AGG + " The cvxpy/ECOS iteration is an opaque deterministic kernel.",
+            "DESIGN.md §5 C19"),
 }
 PENDING_REASON = "check not built yet in this round (see DESIGN.md §9 order of work); nothing is claimed for it"
 
